@@ -299,6 +299,14 @@ def rule_linebreaks(run, prog):
     except Unsupported as e:
         raise Undecided(f"Lexer.pop / get_next_token is outside the evaluable subset: {e}")
 
+    from ..lexsim import parsers_hook_works
+    try:
+        hook = parsers_hook_works(prog)
+    except Unsupported as e:
+        raise Undecided(f"Lexer.get_next_token is outside the evaluable subset: {e}")
+    if not hook:
+        raise Undecided("get_next_token does not select its sub-parsers by walking self.parsers: the position a stub sub-parser "
+                        "would see cannot be observed (pop's own bookkeeping is decided above)")
     # the bad-lexeme skip: no sub-parser takes the character, get_next_token reports it and moves on; wherever it lands, the
     # column there is the column of that raw offset (a skipped trigraph is three columns wide)
     bad_skip, n_skip = None, 0
@@ -330,7 +338,7 @@ def rule_linebreaks(run, prog):
         raise Undecided(f"Lexer.get_next_token is outside the evaluable subset: {e}")
     run.ob("R-9.4", f"{gnt.key}::bad-lexeme-skip", bad_skip is None,
            (f"after the unmatchable start of {bad_skip[0]!r} the next sub-parser round sees the position {bad_skip[1]} but stands at "
-            f"(line, column) {bad_skip[2][0]} / offset {bad_skip[2][1]} of the raw text (result {bad_skip[3]!r}): every later token of the "
+            f"(line, column) {(bad_skip[2] or (None, None))[0]} / offset {(bad_skip[2] or (None, None))[1]} of the raw text (result {bad_skip[3]!r}): every later token of the "
             f"line is reported at a wrong column") if bad_skip else "", gnt.node, evaluations=n_skip)
 
     def show(rec):
